@@ -13,6 +13,7 @@ import lib  # noqa
 import c17_tensor  # noqa
 
 PID = 'C17'
+LTE_BINDING = (False, False)     # (g2l, l2g) rows bound by id? set from the translation
 TOL = Fr(1, 2 ** 40)
 CANON = [0, 1, 2, 3, 4, 5]          # [11, 22, 33, 12, 23, 31]
 
@@ -183,9 +184,39 @@ def gen_cases(ctx):
             rows = [array_from_matrix(A, eng, None)]
             rows = [[Fr(float(x)) for x in r] for r in rows]   # round to binary64 if needed
         add({'kind': 'inv', 'a': [[pair(x) for x in r] for r in rows], 'eng': eng, 'label': kind})
-    # --- thermal expansion global -> local -> global
-    for _ in range(150 if thorough else 8):
-        n = rng.randint(1, 3)
+    # --- thermal expansion global -> local -> global, PER ELEMENT ID
+    def id_orders(n):
+        mode = rng.choice(['sparse', 'sparse', 'large', 'dense', 'offset'])
+        if mode == 'sparse':
+            base = rng.sample(range(1, 50 * n + 5), n)
+        elif mode == 'large':
+            base = rng.sample(range(2 ** 31, 2 ** 31 + 100 * n), n - 1) + [rng.randint(1, 9)]
+        elif mode == 'dense':
+            base = list(range(1, n + 1))
+        else:
+            a0 = rng.randint(100, 10 ** 6)
+            base = list(range(a0, a0 + n))
+
+        def variant(ids):
+            how = rng.choice(['sorted', 'reversed', 'shuffled', 'swap2', 'move1', 'interior'])
+            ids = sorted(ids)
+            if how == 'reversed':
+                ids = ids[::-1]
+            elif how == 'shuffled':
+                rng.shuffle(ids)
+            elif how == 'swap2' and n > 1:
+                k = rng.randrange(n - 1)
+                ids[k], ids[k + 1] = ids[k + 1], ids[k]
+            elif how == 'move1' and n > 1:
+                ids.insert(rng.randrange(n), ids.pop(rng.randrange(n)))
+            elif how == 'interior' and n > 3:
+                mid = ids[1:-1]
+                rng.shuffle(mid)
+                ids = [ids[0]] + mid + [ids[-1]]
+            return ids, how
+        return base, variant, mode
+    for _ in range(200 if thorough else 24):
+        n = rng.randint(1, 6)
         rows = []
         for _r in range(n):
             if rng.random() < 0.5:
@@ -194,10 +225,28 @@ def gen_cases(ctx):
                 rows.append(array_from_matrix(sym_from_eigs(M, lam), True, None))
             else:
                 rows.append([dyadic(rng, rng.choice(['mid', 'int'])) for _ in range(6)])
-        ids = rng.sample(range(1, 500), n)
-        add({'kind': 'lte', 'a': [[pair(x) for x in r] for r in rows], 'ids': ids,
+        base, variant, mode = id_orders(n)
+        eids, how_e = variant(base)
+        if rng.random() < 0.4:
+            vids, how_v = list(eids), 'same-as-elements'
+        else:
+            vids, how_v = variant(base)
+        c = {'kind': 'lte', 'a': [[pair(x) for x in r] for r in rows], 'ids': eids, 'var_ids': vids,
+             'id_mode': mode, 'order_elements': how_e, 'order_variable': how_v,
              'name_in': rng.choice(['lte_full', 'linear_thermal_expansion_coefficient_full']),
-             'pop': rng.random() < 0.7})
+             'pop': rng.random() < 0.7, 'repeat': rng.random() < 0.2}
+        if rng.random() < 0.2:
+            # local -> global only, `lte` and `orient` stored in their own (different) orders
+            oids, how_o = variant(base)
+            fr = INT_ROT[1]
+            c.update({'l2g_only': True, 'orient_ids': oids, 'order_orient': how_o,
+                      'lte': [[pair(Fr(rng.randint(-9, 9))) for _ in range(3)] for _ in vids],
+                      'orient': [[pair(Fr(x, 3)) for x in
+                                  [fr[0][p], fr[1][p], fr[2][p], fr[0][q_], fr[1][q_], fr[2][q_], 0, 0, 0]]
+                                 for p, q_ in [rng.sample(range(3), 2) for _ in oids]]})
+            # columns of M/3 are orthonormal; thirds are not dyadic -> rounded to binary64
+            c['orient'] = [[pair(Fr(float(Fr(*x)))) for x in row] for row in c['orient']]
+        add(c)
     # --- sparse alignment
     ext = getattr(ctx, 'align_extended', False)
     for _ in range(1000 if thorough or ext else 40):
@@ -380,15 +429,35 @@ def oracle(c, r):
     elif k == 'lte':
         if not r['a_unchanged'] or not r['local_unchanged']:
             bad.append(('caller-array-modified', 'convert_lte_*'))
-        for row, full in zip(c['a'], r['lte_full']):
-            a = [Fr(*x) for x in row]
-            full = frv(full)
-            if None in full:
-                bad.append(('nan', ''))
-                continue
-            tol = TOL * scale_of(a)
-            if any(abs(x - y) > tol for x, y in zip(full, a)):
-                bad.append(('lte-round-trip', [str(float(x - y)) for x, y in zip(full, a)]))
+        vids = c.get('var_ids', c['ids'])
+        final = by_id(r['lte_full'])
+        lte_id, orient_id = by_id(r['lte']), by_id(r['orient'])
+        if any(None in row for t in (final, lte_id, orient_id) for row in t.values()):
+            return bad + [('nan', '')]
+        differs = vids != c['ids'] or (c.get('l2g_only') and c['orient_ids'] != vids)
+        cause = 'rows-attached-positionally' if differs else 'values'
+        if c.get('l2g_only'):
+            lin = {i: [Fr(*x) for x in row] for i, row in zip(vids, c['lte'])}
+            oin = {i: [Fr(*x) for x in row] for i, row in zip(c['orient_ids'], c['orient'])}
+            for i in vids:
+                want = l2g_exact(lin[i], oin[i])
+                tol = TOL * scale_of(want) * 4
+                if i not in final or any(abs(x - y) > tol for x, y in zip(final[i], want)):
+                    bad.append(('lte-local2global-per-element:' + cause, {'element_id': i}))
+                    break
+        else:
+            inp = {i: [Fr(*x) for x in row] for i, row in zip(vids, c['a'])}
+            for i in vids:
+                tol = TOL * scale_of(inp[i]) * 4
+                if i not in lte_id or i not in orient_id or \
+                        any(abs(x - y) > tol for x, y in zip(l2g_exact(lte_id[i], orient_id[i]), inp[i])):
+                    bad.append(('lte-local-values-per-element:' + cause, {'element_id': i}))
+                    break
+            for i in vids:
+                tol = TOL * scale_of(inp[i]) * 4
+                if i not in final or any(abs(x - y) > tol for x, y in zip(final[i], inp[i])):
+                    bad.append(('lte-round-trip-per-element:' + cause, {'element_id': i}))
+                    break
     elif k == 'align':
         if not r['inputs_unchanged']:
             bad.append(('caller-array-modified', 'align_nnz'))
@@ -424,6 +493,19 @@ def align_rounding_bound(c):
     vals = [Fr(*e[2]) for m in c['mats'] for e in m['entries']] + [Fr(0)]
     D = 2 * abs(min(vals)) + 1
     return Fr(1, 2 ** 51) * (len(c['mats']) * D + max(abs(v) for v in vals))
+
+
+def by_id(attr):
+    return {i: frv(row) for i, row in zip(attr['ids'], attr['rows'])}
+
+
+def l2g_exact(w, o):
+    """the tensor (engineering six-vector) of local values w and axes o[0:3], o[3:6], cross"""
+    o0, o1 = o[0:3], o[3:6]
+    o2 = [o0[1] * o1[2] - o0[2] * o1[1], o0[2] * o1[0] - o0[0] * o1[2], o0[0] * o1[1] - o0[1] * o1[0]]
+    O = [o0, o1, o2]
+    M = [[sum(w[k] * O[k][i] * O[k][j] for k in range(3)) for j in range(3)] for i in range(3)]
+    return [M[0][0], M[1][1], M[2][2], 2 * M[0][1], 2 * M[1][2], 2 * M[0][2]]
 
 
 def inv_amplification(r, i):
@@ -488,16 +570,39 @@ def coq_items(c, r):
                         f"{qm(frm(e['m'][i]))} {qv(frv(e['w'][i]))} {qm(frm(e['v'][i]))} "
                         f"{qv(frv(r['c'][i]))}"))
     elif k == 'lte':
-        for i, row in enumerate(c['a']):
-            a = [Fr(*x) for x in row]
-            if len(r['eigh']) != 1 or r['eigh_after']:
-                out.append((str(i), 'false'))
+        g_by_id, l_by_id = LTE_BINDING
+        eids = r['element_ids']
+        final, lte_id, orient_id = by_id(r['lte_full']), by_id(r['lte']), by_id(r['orient'])
+        lte_ids, orient_rows = r['lte']['ids'], [frv(x) for x in r['orient']['rows']]
+        if c.get('l2g_only'):
+            for kk, i1 in enumerate(lte_ids):
+                o = orient_id.get(i1) if l_by_id else (orient_rows[kk] if kk < len(orient_rows) else None)
+                i2 = i1 if l_by_id else (eids[kk] if kk < len(eids) else None)
+                if o is None or i2 not in final:
+                    out.append((str(kk), 'false'))
+                    continue
+                tol = TOL * scale_of(final[i2]) * 4
+                out.append((str(kk), f'chk_l2g {q(tol)} {qv(lte_id[i1])} {qv(o)} {qv(final[i2])}'))
+            return out
+        if len(r['eigh']) != 1 or r['eigh_after']:
+            return [('0', 'false')]
+        e = r['eigh'][0]
+        before = r['full_before']
+        for kk, row in enumerate(before['rows']):
+            a = frv(row)
+            i1 = before['ids'][kk] if g_by_id else eids[kk]
+            if i1 not in lte_id or i1 not in lte_ids:
+                out.append((str(kk), 'false'))
                 continue
-            e = r['eigh'][0]
+            k2 = lte_ids.index(i1)
+            o = orient_id.get(i1) if l_by_id else orient_rows[k2]
+            i2 = i1 if l_by_id else eids[k2]
+            if o is None or i2 not in final:
+                out.append((str(kk), 'false'))
+                continue
             tol = TOL * scale_of(a) * 4
-            out.append((str(i), f"chk_lte {q(tol)} {qv(a)} {qm(frm(e['m'][i]))} {qv(frv(e['w'][i]))} "
-                        f"{qm(frm(e['v'][i]))} {qv(frv(r['lte'][i]))} {qv(frv(r['orient'][i]))} "
-                        f"{qv(frv(r['lte_full'][i]))}"))
+            out.append((str(kk), f"chk_lte {q(tol)} {qv(a)} {qm(frm(e['m'][kk]))} {qv(frv(e['w'][kk]))} "
+                        f"{qm(frm(e['v'][kk]))} {qv(lte_id[i1])} {qv(o)} {qv(final[i2])}"))
     elif k == 'align':
         nr, nc = c['shape']
 
@@ -568,6 +673,9 @@ def sig_of(c, what):
         s['eng'] = c['eng']
     if c['kind'] == 'sym':
         s['order'] = 'default' if c['order'] is None else ''.join(map(str, c['order']))
+    if c['kind'] == 'lte' and what.endswith(':rows-attached-positionally'):
+        s = {'site': 'convert_lte_global2local/convert_lte_local2global',
+             'cause': 'rows attached positionally to elements.ids', 'ids_order_differs': True}
     if c['kind'] == 'align' and what == 'dummy-scale-absorption':
         s = {'site': 'align_nnz', 'cause': 'dummy-scale absorption', 'exact_in_binary64': False}
     return s
@@ -609,6 +717,9 @@ def main(ctx):
         ctx.sources = consumed
         ctx.notes['translated_index_lists'] = tr.index_lists
         ctx.notes['mutated_caller_arrays'] = tr.mutated_caller
+        global LTE_BINDING
+        LTE_BINDING = tuple(c17_tensor.binding_by_id(tr.fn[m]) for m in c17_tensor.METHODS)
+        ctx.notes['lte_rows_bound_by_id'] = dict(zip(c17_tensor.METHODS, LTE_BINDING))
         lib.write_if_changed(lib.COQ / PID / 'gen' / 'TensorIdx.v', c17_tensor.emit(tr))
     except (c17_tensor.TranslateError, SyntaxError, KeyError, AttributeError, TypeError,
             ValueError, IndexError) as e:
@@ -663,6 +774,12 @@ def main(ctx):
             ctx.count('eng:%s' % c['eng'])
         if c['kind'] in ('pc', 'inv') and 'label' in c:
             ctx.count('spectrum:' + c['label'])
+        if c['kind'] == 'lte':
+            ctx.count('lte_ids:' + c.get('id_mode', '?'))
+            ctx.count('lte_order_elements:' + c.get('order_elements', '?'))
+            ctx.count('lte_order_variable:' + c.get('order_variable', '?'))
+            if c.get('l2g_only'):
+                ctx.count('lte_l2g_only')
         if c['kind'] == 'align':
             ctx.count('align_n_matrices:%d' % len(c['mats']))
             ctx.count('align_stream:' + ('bit-exact' if c.get('exact_stream') else
